@@ -60,6 +60,10 @@ theorem loaded_yield_declared_driver : ∀ l ∈ loaded,
     setDriver l.d = (if l.d.driverType == "network" then DriverKind.network else DriverKind.generic, LoadErr.ok) := by
   decide +kernel
 
+/-- the constructor gets through `setDriver` and `UpdatePrivileges` for every embedded definition
+and variant: valid patterns, no write into a missing graph entry -/
+theorem loaded_construct : ∀ l ∈ loaded, constructs l.d = true := by decide +kernel
+
 theorem default_level_exists : ∀ l ∈ loaded, isNetwork l.d = true → defaultLevelExists l.d = true := by
   decide +kernel
 
